@@ -7,7 +7,7 @@
    That the Levenberg-Marquardt iterates for mirrored inputs are mirror images (up to round-off) is not
    proved; tools/harness/c13.py validates it on the real finder on every run. *)
 From Coq Require Import ZArith QArith Bool List.
-From Aegean Require Import Lib.QBase Gen.Islands Gen.Polarity Model.IslandModel Model.Polarity
+From Aegean Require Import Lib.QBase Lib.Ext Gen.Islands Gen.Polarity Model.IslandModel Model.Polarity
                            Proofs.IslandProofs Proofs.PolarityProofs.
 Import ListNotations.
 
@@ -54,7 +54,32 @@ Theorem C13_filter_zero_nan_survives : forall (row : Type) (peak : row -> option
   In s l -> (peak s = None \/ exists q, peak s = Some q /\ (q == 0)%Q) -> In s (catalogue row peak np nn l).
 Proof. exact zero_nan_survives. Qed.
 
+(* (d) the curvature map that _fit_island hands to estimate_lmfit_parinfo: wherever the filter window
+   of a pixel is not a plateau (pixel = maximum = minimum of its window), the curvature of the negated
+   image is minus the curvature of the image - whatever replaces non-finite pixels before the two rank
+   filters, the replacement for the minimum filter must be the mirror image of the one for the
+   maximum filter.  maxf / minf = scipy's filters on one window, with the (validated) hypothesis that
+   negation exchanges them.  This is hypothesis `ip_curve (neg) = - ip_curve` of neg_island in (b). *)
+Theorem C13_curvature_mirrored : forall maxf minf : list ev -> ev,
+  (forall v, maxf (map neg_ev v) = neg_ev (minf v)) -> (forall v, minf (map neg_ev v) = neg_ev (maxf v)) ->
+  forall w c, plateau_gen maxf minf w c = false ->
+  curve_gen maxf minf (map neg_ev w) (neg_ev c) = (- curve_gen maxf minf w c)%Z.
+Proof. exact curvature_mirrored. Qed.
+
 (* ---------- non-vacuity ---------- *)
+(* a local maximum beside a blank pixel: curvature -1; negated: local minimum beside a blank pixel: +1
+   (max_ev / min_ev: the rank filters on windows from which the fill has removed every NaN - here
+   the window is written with the blank pixel left out, which is what scipy's filters do with it) *)
+Example ex_curvature :
+  curve_gen max_ev min_ev [Fin 3; Fin 5; Fin 9; Fin 4; Fin 2; Fin 1; Fin 6; Fin 7] (Fin 9) = (-1)%Z /\
+  curve_gen max_ev min_ev (map neg_ev [Fin 3; Fin 5; Fin 9; Fin 4; Fin 2; Fin 1; Fin 6; Fin 7]) (neg_ev (Fin 9)) = 1%Z /\
+  plateau_gen max_ev min_ev [Fin 3; Fin 5; Fin 9; Fin 4; Fin 2; Fin 1; Fin 6; Fin 7] (Fin 9) = false /\
+  plateau_gen max_ev min_ev [Fin 4; Fin 4; Fin 4] (Fin 4) = true.
+Proof. vm_compute. auto. Qed.
+Example ex_filters_exchange : forall v, In v [[Fin 3; Fin (-5); PInf]; [NInf; Fin 0]; [Fin 7]] ->
+  max_ev (map neg_ev v) = neg_ev (min_ev v) /\ min_ev (map neg_ev v) = neg_ev (max_ev v).
+Proof. intros v [<-|[<-|[<-|[]]]]; vm_compute; auto. Qed.
+
 Definition ex_p (r c v cu : Z) : ipx := mkIpx (r, c) (v # 1) (1 # 2) (cu # 1).
 (* 4 x 6 island, all pixels positive, two local maxima (20 and 12), rms 1/2, clips 5 / 4 *)
 Definition ex_isl : island :=
@@ -111,3 +136,4 @@ Print Assumptions C13_islands_symmetric.
 Print Assumptions C13_estimate_mirrored_partial.
 Print Assumptions C13_filter_partition.
 Print Assumptions C13_filter_zero_nan_survives.
+Print Assumptions C13_curvature_mirrored.
